@@ -991,6 +991,8 @@ type ReqChoices struct {
 	BareCT       bool   // gRPC family with the proto codec: "application/grpc" / "application/grpc-web" without "+proto"
 	SpacedAccept bool   // "a, b" instead of "a,b" in the accept-encoding list
 	NoVersion    bool   // Connect: leave the optional Connect-Protocol-Version header out
+	// ExplicitIdentity: when nothing is compressed, say so ("identity") instead of leaving the encoding header out
+	ExplicitIdentity bool
 }
 
 // EncodeRequest writes a request: msgs are codec-encoded messages, hdr application headers (-Bin values unpadded
@@ -1028,6 +1030,8 @@ func EncodeRequest(proto string, unary bool, codec string, msgs [][]byte, hdr ht
 			if c.Encoding != "" {
 				header.Set("Content-Encoding", c.Encoding)
 				body = Compress(c.Encoding, body)
+			} else if c.ExplicitIdentity {
+				header.Set("Content-Encoding", "identity")
 			}
 			return header, body
 		}
@@ -1055,6 +1059,16 @@ func EncodeRequest(proto string, unary bool, codec string, msgs [][]byte, hdr ht
 		}
 		if c.Encoding != "" {
 			header.Set("Grpc-Encoding", c.Encoding)
+		}
+	}
+	if c.Encoding == "" && c.ExplicitIdentity {
+		switch {
+		case proto == Connect && unary:
+			header.Set("Content-Encoding", "identity")
+		case proto == Connect:
+			header.Set("Connect-Content-Encoding", "identity")
+		default:
+			header.Set("Grpc-Encoding", "identity")
 		}
 	}
 	for i, m := range msgs {
